@@ -127,7 +127,12 @@ class Ctx:
             c['samples'].extend(r['samples'][:2])
         if r.get('witness') is not None:
             c['vacuity_witnesses'][label] = r['witness']
-            bad = [k for k, v in r['witness'].items() if v != 'sat']
+            bad = [k for k, v in r['witness'].items() if v == 'unsat']
+            undecided = [k for k, v in r['witness'].items() if v not in ('sat', 'unsat')]
+            if undecided:
+                # the solver could not decide the witness within the cap: reported as inconclusive (only `unsat` means a vacuous harness)
+                c['inconclusive'] += len(undecided)
+                c['inconclusive_list'] += ['%s: vacuity witness %s undecided (%s)' % (label, k, r['witness'][k]) for k in undecided]
             if bad and r['job'].get('args', {}).get('prefix'):
                 # a prefix-split job explores one slice of the decision tree: a witness has to be reachable in SOME slice of the family
                 fam = (r['job']['mod'], r['job']['fn'], json.dumps({k: v for k, v in r['job']['args'].items() if k != 'prefix'}, sort_keys=True, default=str))
